@@ -98,6 +98,52 @@ pub fn process(
 ) -> Result<Vec<u8>, Error> {
     let mut finalized_opcode = vec![];
 
+    // Check count of operands
+    let correct_count = match op {
+        Operation::Ijmp
+        | Operation::Eijmp
+        | Operation::Icall
+        | Operation::Eicall
+        | Operation::Ret
+        | Operation::Reti
+        | Operation::Spm
+        | Operation::Break
+        | Operation::Nop
+        | Operation::Sleep
+        | Operation::Wdr
+        | Operation::Se(_)
+        | Operation::Cl(_) => op_args.len() == 0,
+        Operation::Lpm | Operation::Elpm => op_args.len() == 0 || op_args.len() == 2,
+        Operation::Com
+        | Operation::Neg
+        | Operation::Inc
+        | Operation::Dec
+        | Operation::Push
+        | Operation::Pop
+        | Operation::Lsr
+        | Operation::Ror
+        | Operation::Asr
+        | Operation::Swap
+        | Operation::Tst
+        | Operation::Clr
+        | Operation::Lsl
+        | Operation::Rol
+        | Operation::Ser
+        | Operation::Rjmp
+        | Operation::Rcall
+        | Operation::Jmp
+        | Operation::Call
+        | Operation::Bset
+        | Operation::Bclr => op_args.len() == 1,
+        Operation::Br(BranchT::Bs) | Operation::Br(BranchT::Bc) => op_args.len() == 2,
+        Operation::Br(_) => op_args.len() == 1,
+        Operation::Custom(_) => true,
+        _ => op_args.len() == 2,
+    };
+    if !correct_count {
+        bail!("wrong count of operands ({}) for {:?}", op_args.len(), op);
+    }
+
     let mut opcode = op.info(constants).op_code;
     let mut opcode_2part = 0u16;
     let mut long_opcode = false;
